@@ -191,5 +191,30 @@ theorem var3_cmpGrlex_mul (a b c : Var3 I) : Var3.cmpGrlex (a * c) (b * c) = Var
     abel
   rw [h, h, cmpI_add_right]
 
+/-! the monomial types are commutative monoids under the model's multiplication -/
+instance : CommMonoid (Var I) where
+  mul := (· * ·)
+  one := 1
+  mul_assoc a b c := Var.ext' (add_assoc _ _ _)
+  one_mul a := Var.ext' (zero_add _)
+  mul_one a := Var.ext' (add_zero _)
+  mul_comm a b := Var.ext' (add_comm _ _)
+
+instance : CommMonoid (Var2 I) where
+  mul := (· * ·)
+  one := 1
+  mul_assoc a b c := Var2.ext' (add_assoc _ _ _) (add_assoc _ _ _)
+  one_mul a := Var2.ext' (zero_add _) (zero_add _)
+  mul_one a := Var2.ext' (add_zero _) (add_zero _)
+  mul_comm a b := Var2.ext' (add_comm _ _) (add_comm _ _)
+
+instance : CommMonoid (Var3 I) where
+  mul := (· * ·)
+  one := 1
+  mul_assoc a b c := Var3.ext' (add_assoc _ _ _) (add_assoc _ _ _) (add_assoc _ _ _)
+  one_mul a := Var3.ext' (zero_add _) (zero_add _) (zero_add _)
+  mul_one a := Var3.ext' (add_zero _) (add_zero _) (add_zero _)
+  mul_comm a b := Var3.ext' (add_comm _ _) (add_comm _ _) (add_comm _ _)
+
 end Vars
 end Yuiv.C16
